@@ -27,6 +27,8 @@ CONSTANTS
   FocusOwners = {"model"}
   CompOwners = {"observation"}
   MaxCompiles = 2
+  ModeWeight = 1
+  AgainWeight = 1
   Depth = 0
   Export = FALSE
   Defaults = "from_settings"
